@@ -84,9 +84,14 @@ func c17Rebuild(tm *term) string {
 	return ""
 }
 
-func TestC17_Random(t *testing.T) {
+func TestC17_Random(t *testing.T) { rapid.Check(t, c17RandomProp) }
+
+// FuzzC17: the same property under Go's coverage-guided fuzzer (thorough tier).
+func FuzzC17(f *testing.F) { f.Fuzz(rapid.MakeFuzz(c17RandomProp)) }
+
+func c17RandomProp(t *rapid.T) {
 	cfg := termCfg{typed: true, fn: true}
-	rapid.Check(t, func(t *rapid.T) {
+	{
 		depth := rapid.IntRange(0, 3).Draw(t, "depth")
 		ta := genTerm(cfg, depth).Draw(t, "a")
 		var tb *term
@@ -128,7 +133,7 @@ func TestC17_Random(t *testing.T) {
 		statCase("C17", hashString(s), equal, func() interface{} {
 			return map[string]interface{}{"a": ta.String(), "b": tb.String(), "reported_equal": equal, "objects_compared": len(c17Universe)}
 		}, labels...)
-	})
+	}
 }
 
 // c17Atoms: C18's atoms plus the typed filters' atoms.
